@@ -45,7 +45,7 @@ struct GenericPomdp {
 };
 static_assert(P::IsModel<GenericPomdp> && !P::IsModelEigen<GenericPomdp>);
 
-long verif::verif_ncases(const std::string & tier) { return kFixed + (tier == "thorough" ? 5000 : 200); }
+long verif::verif_ncases(const std::string & tier) { return kFixed + (tier == "thorough" ? 1500 : 200); }
 
 static int g_witness_limit = 10;   // seconds; a Witness run on these sizes takes well under a second
 
@@ -298,7 +298,7 @@ static PomdpTables cxNeg() {
 
 void verif::verif_case(Rng & rng, long idx, const std::string & tier) {
     const bool thorough = tier == "thorough";
-    g_witness_limit = thorough ? 60 : 10;
+    g_witness_limit = thorough ? 15 : 10;
     if (idx == 0) { auto p = tiger(); runAll(p, 2, true, rng, 15, 4); runRTBSS(p, 2, true, rng, 2, true); return; }
     if (idx == 1) { auto p = awkward(); runAll(p, 3, true, rng, 15, 4); runRTBSS(p, 3, true, rng, 2, true); return; }
     if (idx == 2) {   // RTBSS with the documented maxR on an all-negative model
@@ -398,13 +398,13 @@ void verif::verif_case(Rng & rng, long idx, const std::string & tier) {
     switch (extra) {
     case 0: {   // horizon 0
         std::printf("#stat extra:horizon0 1\n");
-        runRTBSS(pt, 0, dyadic, rng, 1, true, true); runAll(pt, 0, dyadic, rng, 31, 2);
+        runRTBSS(pt, 0, dyadic, rng, 1, true, true); runAll(pt, 0, dyadic, rng, rng.coin() ? 31 : 15, 2);
         break; }
     case 1: {   // large magnitudes: rewards times 2^17 .. 2^24 (mixed signs stay mixed)
         const int k = (int)rng.range(17, 24);
         PomdpTables big = pt; big.R *= std::ldexp(1.0, k);
         std::printf("#stat extra:scale_2^%d 1\n", k);
-        const int w = 7 | (rng.coin(1, 4) ? 8 : 0) | (rng.coin(1, 4) ? 16 : 0);
+        const int w = 7 | (rng.coin(1, 4) ? 8 : 0) | (rng.coin(1, 8) ? 16 : 0);
         runRTBSS(big, h, dyadic, rng, 1, false); runAll(big, h, dyadic, rng, w, nr);
         break; }
     case 2: case 7: {   // tolerance (case 7: on the scaled instance, tolerance scaled too)
@@ -415,7 +415,7 @@ void verif::verif_case(Rng & rng, long idx, const std::string & tier) {
         else std::printf("#stat extra:tolerance 1\n");
         unsigned h2 = (tol > 1e-6) ? (unsigned)rng.range(2, A * O <= 4 ? 5 : 3) : h;
         if (S >= 4 && h2 > 3) h2 = 3;
-        runTol(q, h2, tol, dyadic, 7 | (rng.coin(1, 3) ? 8 : 0) | (rng.coin(1, 3) ? 16 : 0));
+        runTol(q, h2, tol, dyadic, 7 | (rng.coin(1, 3) ? 8 : 0) | (rng.coin(1, 6) ? 16 : 0));
         break; }
     case 3: {   // generic (non-Eigen) model
         std::printf("#stat extra:generic 1\n");
@@ -434,7 +434,7 @@ void verif::verif_case(Rng & rng, long idx, const std::string & tier) {
         PomdpTables w = randomPomdp(rng, sh[0], sh[1], sh[2], 3);
         const unsigned h2 = (unsigned)rng.range(1, 3);
         std::printf("#stat extra:shape_S%zuA%zuO%zu 1\n", sh[0], sh[1], sh[2]);
-        const int wh = 7 | (rng.coin() ? 8 : 0) | (rng.coin(1, 4) ? 16 : 0);
+        const int wh = 7 | (rng.coin() ? 8 : 0) | (rng.coin(1, 8) ? 16 : 0);
         runRTBSS(w, h2, true, rng, 1, true); runAll(w, h2, true, rng, wh, nr);
         break; }
     default: {  // information gathering: each action pays in "its" state, observations are noisy: many useful vectors per action
